@@ -731,6 +731,7 @@ class SplineTerm(Term):
         self._name = 'spline_term'
         self._minimal_name = 's'
 
+        self._edge_knots_given = edge_knots is not None
         if edge_knots is not None:
             self.edge_knots_ = edge_knots
 
@@ -825,7 +826,9 @@ class SplineTerm(Term):
                 'but X has only {} dimensions'.format(self.by, X.shape[1])
             )
 
-        if not hasattr(self, 'edge_knots_'):
+        if not hasattr(self, 'edge_knots_') or not getattr(
+            self, '_edge_knots_given', True
+        ):
             self.edge_knots_ = gen_edge_knots(
                 X[:, self.feature], self.dtype, verbose=verbose
             )
